@@ -6,9 +6,9 @@ CONSTANTS
   FixProto = FALSE
   FixSetter = FALSE
   FixRollback = FALSE
-  H = 3
+  H = 4
   CatSel = {1, 2, 3, 4, 5, 6, 7, 8, 9, 10, 11}
-  Wide = FALSE
+  Wide = TRUE
 INVARIANT TypeOK
 INVARIANT NoClobber
 INVARIANT EsInv
